@@ -15,6 +15,11 @@ CLAIMED = {
         note="As C04; libm pow(x,2) results are taken from the implementation.",
         technique="Rocq proof over R of a model regenerated from source by a translator + bit-exact correspondence (vm_compute on PrimFloat)",
         ref="DESIGN.md §3 C05"),
+    "C20": dict(
+        text="Theorems by induction over settings programs (arbitrary nesting depth, raise at any point, direct assignments): every key named by a context has its previous value after the context on normal and exceptional exit, unnamed keys are untouched by the context, observations inside see the temporary values; hand-written model of Settings.context tied to the code by an exact correspondence over exhaustive/sampled programs run on the real fl.settings, plus a direct oracle on raw Python objects.",
+        note="Coq kernel + vm_compute; all theorems closed under the global context (no axioms); the model of Settings.context is hand-written (tied by correspondence only); Python's contextmanager/generator semantics trusted.",
+        technique="Rocq proof (induction on programs) about a hand model + exact correspondence on operation sequences",
+        ref="DESIGN.md §3 C20"),
 }
 PENDING_REASON = "check under construction in this round (planned in DESIGN.md §3); not claimed until its theorems and correspondence run"
 
